@@ -1,0 +1,12 @@
+//go:build verif
+
+// Contracts for package certs, read by the verification-condition generator in
+// /verif (govc).  Comment-only.
+
+package certs
+
+// Frame only, assumed: issuing or looking up a leaf certificate touches nothing
+// outside this package (the certificate store and the CA key).
+//@ func CertAuthority.GetCertForHost
+//@   trusted
+//@   assigns certs. syncmap.
